@@ -44,7 +44,7 @@ def gen(seed, idx, tier):
             {"kind": "sigint", "at": {"point": "line", "func": rnd.choice(["get_induced_vector_potential", "get_induced_vector_potential", "solve_for_observables"]), "ordinal": rnd.randint(20, 600), "stage": "S"}}
         ]
         scn["meta"]["cancel_in_screening"] = True
-    return scen.maybe_restored(rnd, scen.maybe_solve_twice(rnd, scn))
+    return scen.maybe_moved(rnd, scen.maybe_restored(rnd, scen.maybe_solve_twice(rnd, scn)), 0.15)
 
 
 def post(sim, h):
